@@ -70,7 +70,13 @@ def tv_defect_candidates(prop, spec, vectorized):
     zd_opts = [()]
     und = _undriven_inputs(spec)
     if vectorized and und and 'undriven-default-dropped' in open_ids:
-        zd_opts.append(tuple(sorted(und)))
+        # the defect hits all unconnected copies of one (operator, input variable) at a time
+        groups_ov = sorted({(o, v) for (_, o, v) in und})
+        for r in range(1, len(groups_ov) + 1):
+            for sub in itertools.combinations(groups_ov, r):
+                zd_opts.append(tuple(sorted(x for x in und if (x[1], x[2]) in sub)))
+                if len(zd_opts) > 16:
+                    break
     for m in masks:
         for zd in zd_opts:
             ids = []
@@ -95,3 +101,28 @@ def generated_like_names(spec):
 @matcher('generated-name-collision')
 def _m_names(job, rec, k):
     return bool(generated_like_names(job['spec']))
+
+
+def _single_target_multi_source(spec):
+    """some source population (node type, source variable) reaches exactly ONE unit of a target (node type, operator,
+    input variable), either through >= 2 edges (dot with a (1, k) matrix) or next to another source population"""
+    def ntype(n):
+        return tuple(spec.nodes[n].ops)
+    groups = {}
+    for e in spec.edges:
+        sn, so, sv = e.src.rsplit('/', 2)
+        tn, to, tv_ = e.tgt.rsplit('/', 2)
+        d = groups.setdefault((ntype(tn), to, tv_), {}).setdefault((ntype(sn), so, sv), dict(targets=set(), n=0))
+        d['targets'].add(tn)
+        d['n'] += 1
+    for g, by_src in groups.items():
+        for pop in by_src.values():
+            if len(pop['targets']) == 1 and (pop['n'] >= 2 or len(by_src) >= 2):
+                return True
+    return False
+
+
+@matcher('scalar-index-vector-rhs')
+def _m_scalar_index(job, rec, k):
+    return (rec.get('kind') == 'emitted-function-raises' and 'setting an array element with a sequence' in rec.get('what', '')
+            and job.get('vectorize') and _single_target_multi_source(job['spec']))
